@@ -394,6 +394,7 @@ impl Prop for C07 {
             h,
             max_time: u64::MAX,
             extra16: 0,
+            script: None,
         };
         match run_scenario(sc, &mut r, &mut mon, out, |_, _| None) {
             Ok(s) => {
